@@ -19,7 +19,7 @@ use std::sync::Mutex;
 
 #[derive(Clone, Debug, Serialize, Deserialize, Hash, PartialEq, Eq)]
 pub struct FreshCase {
-    /// sequence of call kinds: 0 encaps classic, 1 encaps hybrid, 2 pke, 3 header, 4 keygen, 5 rekey, 6 recaps, 7 key generation by a restored snapshot of the master key
+    /// sequence of call kinds: 0 encaps classic, 1 encaps hybrid, 2 pke, 3 header, 4 keygen, 5 rekey, 6 recaps, 7 key generation by a restored snapshot of the master key, 8 disable an attribute no other call uses + update
     pub calls: Vec<u8>,
     pub threads: u8,
     pub shared_instance: bool,
@@ -27,7 +27,7 @@ pub struct FreshCase {
 }
 
 fn strategy() -> impl Strategy<Value = FreshCase> {
-    (proptest::collection::vec(0u8..8, 20..60), 1u8..=8, any::<bool>(), 0u8..40).prop_map(|(calls, threads, shared_instance, ptx_len)| FreshCase { calls, threads, shared_instance, ptx_len })
+    (proptest::collection::vec(0u8..9, 20..60), 1u8..=8, any::<bool>(), 0u8..40).prop_map(|(calls, threads, shared_instance, ptx_len)| FreshCase { calls, threads, shared_instance, ptx_len })
 }
 
 #[derive(Default)]
@@ -103,6 +103,8 @@ pub fn instance(sets: &Sets) -> Result<Inst, Fail> {
     msk.access_structure.add_anarchy("DPT".into()).map_err(e)?;
     msk.access_structure.add_attribute(qa("DPT", "FIN"), hint(false), None).map_err(e)?;
     msk.access_structure.add_attribute(qa("DPT", "HR"), hint(true), None).map_err(e)?;
+    // only ever touched by call kind 8
+    msk.access_structure.add_attribute(qa("DPT", "TMP"), hint(false), None).map_err(e)?;
     let mpk = cc.update_msk(&mut msk).map_err(e)?;
     record_mpk(sets, &mpk, true)?;
     let usk = cc.generate_user_secret_key(&mut msk, &AccessPolicy::parse("SEC::TOP").unwrap()).map_err(e)?;
@@ -263,13 +265,27 @@ pub fn one_call(inst: &Inst, sets: &Sets, kind: u8, ptx_len: u8, col: &Collector
                 }
             }
         }
+        8 => {
+            // disable an attribute that no other call names (a second disabling is a no-op) and
+            // make it effective: later rekeys must still publish only new values, and nothing for
+            // the rights of the disabled attribute
+            let mut mpk_slot = inst.mpk.write().unwrap();
+            let mut msk = inst.msk.lock().unwrap();
+            let _ = msk.access_structure.disable_attribute(&qa("DPT", "TMP"));
+            let mpk = inst.cc.update_msk(&mut msk).map_err(|e| Fail::new("update-failed", short_err(&e)))?;
+            *mpk_slot = mpk;
+            drop(msk);
+            col.class("calls:disable+update");
+        }
         _ => {
             let ap = AccessPolicy::parse("*").unwrap();
             let mut mpk_slot = inst.mpk.write().unwrap();
             let mut msk = inst.msk.lock().unwrap();
             let mpk = inst.cc.rekey(&mut msk, &ap).map_err(|e| Fail::new("rekey-failed", short_err(&e)))?;
-            // keep chains short
-            let _ = inst.cc.prune_master_secret_key(&mut msk, &ap);
+            // keep chains short, but let some histories hold several revisions
+            if ptx_len % 2 == 0 {
+                let _ = inst.cc.prune_master_secret_key(&mut msk, &ap);
+            }
             record_mpk(sets, &mpk, false)?;
             *mpk_slot = mpk;
             drop(msk);
@@ -395,7 +411,7 @@ pub fn run(ctx: &Ctx, col: &Collector) -> Meta {
         col.nontrivial(&("secret", v));
     }
     col.class_n("distinct:total", total as u64);
-    for c in ["calls:encaps-classic", "calls:encaps-hybridized", "calls:pke-encrypt", "calls:header-generate", "calls:keygen", "calls:rekey", "calls:recaps", "calls:keygen-from-restored-master-key", "multi-thread-workloads", "instances-created"] {
+    for c in ["calls:encaps-classic", "calls:encaps-hybridized", "calls:pke-encrypt", "calls:header-generate", "calls:keygen", "calls:rekey", "calls:recaps", "calls:keygen-from-restored-master-key", "calls:disable+update", "multi-thread-workloads", "instances-created"] {
         if col.class_count(c) == 0 && !col.stopped() {
             col.note(format!("generator unhealthy: class {c} empty"));
         }
@@ -406,7 +422,7 @@ pub fn run(ctx: &Ctx, col: &Collector) -> Meta {
 fn meta() -> Meta {
     Meta {
         level: "exploration",
-        rule: "generated workloads of 20-60 calls (encaps classic / hybridized, PKE encrypt, header generate, key generation, rekey '*', recaps of one fixed encapsulation, key generation by a restored backup of the master key) with identical arguments, run on one shared instance or on fresh instances, from 1-8 threads, followed by contention bursts (8 threads issuing the same kind of call at once on the shared instance) and with headers generated with and without authentication data; every returned secret, tag, trap, masked seed, ML-KEM ciphertext, AEAD nonce (PKE and header metadata), user-id marker vector and every public value published by a rekey is inserted in a run-wide set per kind and must be new; the header's encrypted metadata must not decrypt under the returned secret used as AES key while the authorized path succeeds. Non-trivial = each value compared; distinct_nontrivial counts the distinct tags, nonces, user ids and secrets".into(),
+        rule: "generated workloads of 20-60 calls (encaps classic / hybridized, PKE encrypt, header generate, key generation, rekey '*', recaps of one fixed encapsulation, key generation by a restored backup of the master key, disabling of an otherwise unused attribute followed by an update) with identical arguments, run on one shared instance or on fresh instances, from 1-8 threads, followed by contention bursts (8 threads issuing the same kind of call at once on the shared instance) and with headers generated with and without authentication data; every returned secret, tag, trap, masked seed, ML-KEM ciphertext, AEAD nonce (PKE and header metadata), user-id marker vector and every public value published by a rekey is inserted in a run-wide set per kind and must be new; the header's encrypted metadata must not decrypt under the returned secret used as AES key while the authorized path succeeds. Non-trivial = each value compared; distinct_nontrivial counts the distinct tags, nonces, user ids and secrets".into(),
         exhaustive: false,
         assumptions: vec!["detects reuse and low-entropy sources (constant, counter, per-call reseeding), not statistical bias".into()],
     }
